@@ -6,11 +6,9 @@ Import ListNotations.
 Definition src_dollar : N := 36%N.
 Definition src_lbrace : N := 123%N.
 Definition src_rbrace : N := 125%N.
-(* the tests behind a reference opener, in source order: no brace, no closing brace, empty name, lookup;
-   IGNORE_LOOKUP_ERRORS copies p .. ve inclusive and goes on behind ve; a value is interpolated one level deeper *)
-Definition src_test_order : list nat := [0; 1; 2; 3]%nat.
-Definition src_ignore_copies_reference : bool := true.
-(* interpolate: one pre-increment test against the limit on entry, one decrement after interpolate_inner, nothing else *)
+(* the order of the tests behind a reference opener, the IGNORE_LOOKUP_ERRORS copy and the place of the increment and
+   decrement are pinned as TEXT by the translator (anchored patterns over the three function bodies), not as constants *)
+(* interpolate: occurrences of the depth counter besides its declaration (one pre-increment test, one decrement) *)
 Definition src_depth_sites : nat := 2.
 Definition src_depth_limit : nat := 5.
 (* diagnostics after "invalid substitution, ": brace, close, empty, unknown, deep *)
